@@ -18,7 +18,7 @@ def run(tier, seed, replay=None):
     build = lib.Build().run()
     rep.proof = lib.compile_props(PID)
     rng = lib.rng_for(seed, PID)
-    n = 200 if tier == 'quick' else 8000
+    n = 200 if tier == 'quick' else 64000
     cases = []
     for c in range(n):
         text, den = gen.gen_csv(rng)
